@@ -145,10 +145,8 @@ def diag_of_terms(terms, n):
     return d
 
 
-def impl_decode(enc, inst, bitstring):
-    """flat starts (job-major), -1 for an unscheduled operation; also (is_valid, makespan). Shape is checked."""
-    r = enc.translate_result_bitstring(bitstring)
-    pi = enc.jssp_instance
+def flat_of_result(r, pi):
+    """flat starts (job-major) of a JobShopSchedulingResult, -1 for an unscheduled operation; the shape is checked."""
     flat = []
     sched = r.schedule
     assert list(sched.keys()) == list(pi.jobs), "decoded schedule has other jobs than the instance"
@@ -157,7 +155,95 @@ def impl_decode(enc, inst, bitstring):
         assert tuple(p.operation for p in row) == job.operations, "decoded row has other operations than the job"
         for p in row:
             flat.append(p.start_time if p.is_scheduled else -1)
-    return flat, bool(r.is_valid), r.makespan
+    return flat
+
+
+def impl_decode(enc, inst, bitstring, keep=None):
+    """flat starts (job-major), -1 for an unscheduled operation; also (is_valid, makespan). Shape is checked.
+    If `keep` is a dict the returned result object is stored in it under the bitstring (for a later re-inspection)."""
+    r = enc.translate_result_bitstring(bitstring)
+    if keep is not None:
+        keep[bitstring] = r
+    return flat_of_result(r, enc.jssp_instance), bool(r.is_valid), r.makespan
+
+
+def reinspect_kept(ctx, case, enc, decoded, kept):
+    """Results handed out earlier must still say what they said when they were returned, after all later decodings with the
+    same encoder; `decoded` is updated to what the kept results say now, so that the clauses are judged on the kept results."""
+    reported = False
+    for b, r in kept.items():
+        if b not in decoded:
+            continue
+        try:
+            now = flat_of_result(r, enc.jssp_instance)
+        except Exception as e:  # noqa
+            now = f"{type(e).__name__}: {e}"
+        if now != decoded[b][0]:
+            if not reported:
+                reported = True
+                ctx.violation("oracle", "result-changed-after-later-decoding", f"the result returned for {b!r} said {decoded[b][0]}; after decoding {len(kept)} further bitstrings with the same encoder the kept result says {now}", dict(case, bitstring=b, sequence=list(kept)[:40]))
+            if isinstance(now, list):
+                decoded[b] = (now,) + tuple(decoded[b][1:])
+    ctx.tally("kept-results-reinspected", len(kept))
+
+
+def clone_encoder(enc, how):
+    import copy
+    import pickle
+
+    if how == "pickle":
+        return pickle.loads(pickle.dumps(enc))
+    if how == "copy":
+        return copy.copy(enc)
+    return copy.deepcopy(enc)
+
+
+def examine_lifecycle(ctx, case, used_enc, n, terms, decoded, rng):
+    """An encoder that was used (or only asked for n_qubits, or not touched yet) and then pickled / copied / deep-copied must
+    report the same qubit count, build the same Hamiltonian and decode every bitstring like the original did."""
+    inst, L, P = case["inst"], case["L"], case.get("P") or dict(DEFAULT_P)
+    sample = list(decoded)
+    if len(sample) > 24:
+        sample = rng.sample(sample, 24)
+    for how in ("pickle", "copy", "deepcopy"):
+        stage = rng.choice(["used", "used", "qubits-read", "untouched"])
+        tag = f"{how} of an encoder {stage}"
+        c = dict(case, lifecycle=tag)
+        try:
+            src = used_enc
+            if stage != "used":
+                src = impl_encoder(inst, L, P, case.get("objects"))
+                if stage == "qubits-read":
+                    src.n_qubits
+            clone = clone_encoder(src, how)
+        except Exception as e:  # noqa  -- cloning is not something the property promises
+            ctx.tally(f"lifecycle:{how}-unavailable-{type(e).__name__}")
+            continue
+        ctx.tally(f"lifecycle:{how}/{stage}")
+        try:
+            n2 = int(clone.n_qubits)
+        except Exception as e:  # noqa
+            ctx.violation("oracle", "copy-n-qubits", f"{tag}: n_qubits raised {type(e).__name__}: {e}; the original reports {n}", c)
+            continue
+        if n2 != n:
+            ctx.violation("oracle", "copy-n-qubits", f"{tag} reports n_qubits = {n2}, the original {n}", c)
+            continue
+        if terms is not None:
+            h = impl_hamiltonian(clone)
+            if h[0] == "err":
+                ctx.violation("oracle", "copy-hamiltonian", f"{tag}: get_problem_hamiltonian raised {h[1]}: {h[2]}; the original built one", c)
+            else:
+                t2, _ = ham_terms(h[1]) if h[1].num_qubits == n else ({}, None)
+                if t2 != terms:
+                    ctx.violation("oracle", "copy-hamiltonian", f"{tag} builds a different Hamiltonian ({h[1].num_qubits} qubits, {len(t2)} distinct terms; original {n} qubits, {len(terms)} terms)", c)
+        for b in sample:
+            try:
+                got = impl_decode(clone, inst, b)[0]
+            except Exception as e:  # noqa
+                got = f"{type(e).__name__}: {e}"
+            if got != decoded[b][0]:
+                ctx.violation("oracle", "copy-decoding", f"{tag} decodes {b!r} to {got}, the original to {decoded[b][0]}", dict(c, bitstring=b))
+                break
 
 
 def impl_vars(enc, inst):
@@ -513,10 +599,10 @@ def examine(ctx, batch, case, want, rng, max_all=10):
                     ctx.violation("oracle", "diagonal-evaluation", "diagonal of H.to_matrix() differs from the direct evaluation of its Z strings", case)
     # ---- decoding of bitstrings
     strings, complete = bitstrings(n, rng, max_all=max_all)
-    decoded = {}
+    decoded, kept = {}, {}
     for b in strings:
         try:
-            decoded[b] = impl_decode(enc, inst, b)
+            decoded[b] = impl_decode(enc, inst, b, keep=kept)
         except AssertionError as e:
             ctx.violation("oracle", "decode-shape", f"decoding of {b!r}: {e}", dict(case, bitstring=b))
         except Exception as e:  # noqa
@@ -529,6 +615,9 @@ def examine(ctx, batch, case, want, rng, max_all=10):
         for b in strings[:64 if n <= 16 else 6]:
             if b in decoded:
                 batch.add(lit_decode(inst, L, b, ("ok", decoded[b][0])), dict(case, bitstring=b))
+    reinspect_kept(ctx, case, enc, decoded, kept)
+    if "C15" in want and n <= 16 and decoded:
+        examine_lifecycle(ctx, case, enc, n, terms, decoded, rng)
     # wrong lengths are rejected (model: ValueError)
     for b in ([("0" * (n + 1))] + (["0" * (n - 1)] if n >= 1 else [])):
         try:
@@ -1057,14 +1146,17 @@ def examine_large_slack(ctx, batch, case, want, rng, n_samples=5):
         strings.append(b)
         rows.append([int(ch) for ch in reversed(b)])
     # the implementation's own decoding of these bitstrings must give the schedules back (sampled: all if few)
+    kept, first_said = {}, {}
     for i in (range(len(feas)) if len(feas) <= 400 else rng.sample(range(len(feas)), 400)):
         try:
-            flat, valid, mk = impl_decode(enc, inst, strings[i])
+            flat, valid, mk = impl_decode(enc, inst, strings[i], keep=kept)
+            first_said[strings[i]] = (flat, valid, mk)
         except Exception as e:  # noqa
             ctx.violation("oracle", f"decode-raises-{type(e).__name__}", f"translate_result_bitstring({strings[i]!r}) raised {type(e).__name__}: {e}", dict(case, bitstring=strings[i]))
             continue
         if flat != feas[i] or not valid or mk != makespan_of(inst, feas[i]):
             ctx.violation("oracle", "decode-feasibility", f"{strings[i]!r} encodes the feasible schedule {feas[i]} but decodes to {flat} (valid={valid}, makespan={mk})", dict(case, bitstring=strings[i]))
+    reinspect_kept(ctx, case, enc, first_said, kept)
     energies = exact_energies(exact_terms(H), n, rows)
     summ["states"] = len(feas)
     summ["feasible_states"] = len(feas)
